@@ -7,5 +7,7 @@ cd "$VERIF/harness"
 mkdir -p "$VERIF/.work" "$VERIF/evidence" "$VERIF/replays"
 go build -tags verif -o "$VERIF/.work/setup.vcheck" ./cmd/vcheck
 go build -race -tags verif -o "$VERIF/.work/setup.vcheck.race" ./cmd/vcheck
+# lab fidelity self-test: the acceptance scripts of the repository replayed through the driver facade
+"$VERIF/.work/setup.vcheck" -prop SELFTEST -verif "$VERIF" -no-evidence -v 2>/dev/null | grep -E "self-test|SELFTEST-FAIL" || true
 rm -f "$VERIF/.work/setup.vcheck" "$VERIF/.work/setup.vcheck.race"
 echo setup ok
